@@ -85,6 +85,7 @@ Proof.
 Qed.
 
 Definition wdisj (w1 w2 : write) : Prop :=
+  zlen (snd w1) <= 0 \/ zlen (snd w2) <= 0 \/
   fst w1 + zlen (snd w1) <= fst w2 \/ fst w2 + zlen (snd w2) <= fst w1.
 
 Lemma ip_wdisj_keeps w w' a v : wdisj w w' -> in_range (fst w) (zlen (snd w)) a = true -> keeps v a w'.
